@@ -118,6 +118,9 @@ func (cv0 *HookConfigV0) ConvertAndCheck(c *HookConfig) error {
 			kubeConfig.BindingName = kubeCfg.Name
 		}
 		kubeConfig.Queue = "main"
+		// v0 binding context is rendered from the full object (resourceName, resourceKind, resourceNamespace).
+		kubeConfig.KeepFullObjectsInMemory = true
+		kubeConfig.Monitor.KeepFullObjectsInMemory = true
 
 		c.OnKubernetesEvents = append(c.OnKubernetesEvents, kubeConfig)
 	}
